@@ -197,10 +197,27 @@ def _fresh_at_every_call(results, f, p: str) -> bool:
             if e.data.get("target") is not f:
                 continue
             b = (e.data.get("bound") or {}).get(p)
-            if b is None or roots(b) or any(
-                    x.op in ("param", "global", "named", "loopvar", "loopout")
-                    for x in b.walk()):
-                return False      # (conservative: no input mentioned at all)
+            if b is None:
+                return False
+            caller = res.func
+            own_self = caller.cls is not None and not caller.is_static and \
+                caller.params and b is tm.param(caller.params[0]) and \
+                caller.name not in READONLY_METHODS and \
+                caller.name not in LAZY_GETTERS
+            # the caller's own receiver, handed on by a method that may
+            # modify it (project -> _only_once(self)): the helper acts for
+            # its caller, which is judged itself
+            if not own_self:
+                bu = b
+                while bu.op == "named":
+                    bu = bu.args[1]
+                container = bu.op in ("comp", "list", "tuple", "dict", "set")
+                if roots(b) or (container and any(
+                        x.op in ("param", "global", "named", "loopvar",
+                                 "loopout") for x in b.walk())):
+                    return False  # (shares storage with an input; for a
+                    #               container built on the spot: conservative,
+                    #               its elements may)
             sites += 1
     return sites > 0
 
@@ -236,12 +253,13 @@ def check(ctx):
                            key=f"C16.1:{q}:self",
                            effects=[repr(e) for e in bad[:3]])
                 continue
-            if f.name.startswith("_") and not f.name.startswith("__") \
+            if not f.name.startswith("__") \
                     and q not in KNOWN_FUNCTIONS and effs and \
                     _fresh_at_every_call(results, f, p):
-                # a private helper added later that fills an object its
-                # callers have just created (no storage shared with anything
-                # the callers were given): not an input of the operation
+                # a function added later (not part of the pinned interface)
+                # that, wherever the package calls it, fills an object the
+                # caller has just created or acts on the caller's own
+                # receiver: not an input of an operation of the property
                 ctx.ob("C16.1", f, True,
                        f"{q}({p}): private helper added after the pinned "
                        f"tree, `{p}` is a fresh object at every call site",
